@@ -284,24 +284,29 @@ where
 }
 
 pub fn run(ctx: &Ctx) -> (&'static str, &'static str) {
-    // complete toy instances
-    toy_instance_full::<T19_4>(ctx, ctx.tier.pick(2, 3));
-    toy_instance_full::<T7_2>(ctx, 3);
-    toy_instance_full::<T19_5>(ctx, 2);
-    if !ctx.quick() {
-        toy_instance_full::<T31_5>(ctx, 2);
-    }
-    // F_19^2 instance (shape of G2): restricted lambdas / identity forms
+    #[cfg(feature = "toy")]
     {
-        let g = Group::<T19X2>::build();
-        let lambdas: Vec<F19x2> = vec![Fp2::new(1, 0), Fp2::new(2, 0), Fp2::new(18, 0), Fp2::new(0, 1), Fp2::new(3, 5), Fp2::new(7, 18)];
-        let ids: Vec<(F19x2, F19x2)> = vec![(Fp2::new(0, 0), Fp2::new(1, 0)), (Fp2::new(0, 0), Fp2::new(0, 0)), (Fp2::new(5, 6), Fp2::new(7, 8)), (Fp2::new(1, 0), Fp2::new(1, 0))];
-        let lam = if ctx.quick() { &lambdas[..3] } else { &lambdas[..] };
-        let v = g.all_proj(lam, &ids);
-        let w = g.all_aff();
-        ctx.extra("toy(19^2) group", json!({"order": g.n(), "exponent": g.exponent, "projective_values": v.len(), "affine_values": w.len()}));
-        toy_group_law::<T19X2>(ctx, &g, &v, &w, 1);
+        // complete toy instances
+        toy_instance_full::<T19_4>(ctx, ctx.tier.pick(2, 3));
+        toy_instance_full::<T7_2>(ctx, 3);
+        toy_instance_full::<T19_5>(ctx, 2);
+        if !ctx.quick() {
+            toy_instance_full::<T31_5>(ctx, 2);
+        }
+        // F_19^2 instance (shape of G2): restricted lambdas / identity forms
+        {
+            let g = Group::<T19X2>::build();
+            let lambdas: Vec<F19x2> = vec![Fp2::new(1, 0), Fp2::new(2, 0), Fp2::new(18, 0), Fp2::new(0, 1), Fp2::new(3, 5), Fp2::new(7, 18)];
+            let ids: Vec<(F19x2, F19x2)> = vec![(Fp2::new(0, 0), Fp2::new(1, 0)), (Fp2::new(0, 0), Fp2::new(0, 0)), (Fp2::new(5, 6), Fp2::new(7, 8)), (Fp2::new(1, 0), Fp2::new(1, 0))];
+            let lam = if ctx.quick() { &lambdas[..3] } else { &lambdas[..] };
+            let v = g.all_proj(lam, &ids);
+            let w = g.all_aff();
+            ctx.extra("toy(19^2) group", json!({"order": g.n(), "exponent": g.exponent, "projective_values": v.len(), "affine_values": w.len()}));
+            toy_group_law::<T19X2>(ctx, &g, &v, &w, 1);
+        }
     }
+    #[cfg(not(feature = "toy"))]
+    ctx.degraded("complete toy-curve enumeration");
     crate::checks::c01real::run(ctx);
     ctx.assume("toy instances: the macro is generic over the field, so the complete toy result transfers to the branch structure of the group code; the real field arithmetic is C08/C09");
     (
